@@ -2,28 +2,30 @@
 # seedproc.sh <ID>: confirm a seeded defect produced in /tmp/seed-<ID> (demo passes without / fails with the
 # patch), store it under /verif/seeded/<ID>/, and run the corresponding check against it (overlay, /repo untouched).
 ID=$1
-WT=/tmp/seed-$ID
+R=${2:-}
+WT=/tmp/seed$R-$ID
+DEST=$ID; [ -n "$R" ] && DEST=$ID-r$R
 export GOFLAGS=-mod=mod GOPROXY=off
-mkdir -p /verif/seeded/$ID
+mkdir -p /verif/seeded/$DEST
 [ -f $WT/SEED/patch.diff ] || { echo "no patch in $WT/SEED"; exit 2; }
-rm -rf /verif/seeded/$ID/demo; cp -r $WT/SEED/patch.diff $WT/SEED/meta.json /verif/seeded/$ID/ 2>/dev/null; cp -r $WT/SEED/demo /verif/seeded/$ID/demo
+rm -rf /verif/seeded/$DEST/demo; cp -r $WT/SEED/patch.diff $WT/SEED/meta.json /verif/seeded/$DEST/ 2>/dev/null; cp -r $WT/SEED/demo /verif/seeded/$DEST/demo
 cd $WT || exit 2
-cp -r SEED /var/tmp/seedkeep-$ID
+cp -r SEED /var/tmp/seedkeep-$DEST
 git checkout -q -- . ; git clean -fdq -e SEED
-echo "--- demo WITHOUT patch"; ( timeout 1200 bash SEED/demo/run.sh > /var/tmp/seedkeep-$ID/without.log 2>&1 ); W=$?; echo "exit=$W"
+echo "--- demo WITHOUT patch"; ( timeout 1200 bash SEED/demo/run.sh > /var/tmp/seedkeep-$DEST/without.log 2>&1 ); W=$?; echo "exit=$W"
 git checkout -q -- . ; git clean -fdq -e SEED
 git apply SEED/patch.diff || { echo "PATCH DOES NOT APPLY"; exit 2; }
 go build ./pkg/... ./cmd/... || echo "BUILD FAILS WITH PATCH"
-echo "--- demo WITH patch"; ( timeout 1200 bash SEED/demo/run.sh > /var/tmp/seedkeep-$ID/with.log 2>&1 ); P=$?; echo "exit=$P"
+echo "--- demo WITH patch"; ( timeout 1200 bash SEED/demo/run.sh > /var/tmp/seedkeep-$DEST/with.log 2>&1 ); P=$?; echo "exit=$P"
 git checkout -q -- . ; git clean -fdq -e SEED
-cp /var/tmp/seedkeep-$ID/without.log /var/tmp/seedkeep-$ID/with.log /verif/seeded/$ID/ 2>/dev/null
-rm -rf /var/tmp/seedkeep-$ID
+cp /var/tmp/seedkeep-$DEST/without.log /var/tmp/seedkeep-$DEST/with.log /verif/seeded/$DEST/ 2>/dev/null
+rm -rf /var/tmp/seedkeep-$DEST
 echo "--- check $ID with the seeded patch"
-cd /verif && timeout 2400 ./check $ID --mutant seeded/$ID/patch.diff > /var/tmp/seedcheck-$ID.log 2>&1; C=$?
-grep -v "^built" /var/tmp/seedcheck-$ID.log | cut -c1-400 | head -8
-SIGS=$(grep -o "signature=[^ ]*" /var/tmp/seedcheck-$ID.log | sort -u | tr '\n' ' ')
-cat > /verif/seeded/$ID/confirm.json <<EOT
-{"property": "$ID", "demo_exit_without_patch": $W, "demo_exit_with_patch": $P, "check_cmd": "./check $ID --mutant seeded/$ID/patch.diff", "check_exit": $C, "check_signatures": "$SIGS", "confirmed_by": "seedproc.sh in the scratch worktree /tmp/seed-$ID (removed afterwards)"}
+cd /verif && timeout 2400 ./check $ID --mutant seeded/$DEST/patch.diff > /var/tmp/seedcheck-$DEST.log 2>&1; C=$?
+grep -v "^built" /var/tmp/seedcheck-$DEST.log | cut -c1-400 | head -8
+SIGS=$(grep -o "signature=[^ ]*" /var/tmp/seedcheck-$DEST.log | sort -u | tr '\n' ' ')
+cat > /verif/seeded/$DEST/confirm.json <<EOT
+{"property": "$ID", "demo_exit_without_patch": $W, "demo_exit_with_patch": $P, "check_cmd": "./check $ID --mutant seeded/$DEST/patch.diff", "check_exit": $C, "check_signatures": "$SIGS", "confirmed_by": "seedproc.sh in the scratch worktree $WT (removed afterwards)"}
 EOT
-rm -f /var/tmp/seedcheck-$ID.log
+rm -f /var/tmp/seedcheck-$DEST.log
 echo "demo_without_exit=$W demo_with_exit=$P check_exit=$C"
